@@ -45,6 +45,9 @@ type C20Step struct {
 	// PanicCB: the failure callback of this step panics after it has been entered (a handler's callback that writes to a
 	// connection the client has closed aborts like that). It must still have run exactly once.
 	PanicCB bool `json:"panic_in_callback,omitempty"`
+	// Reenter (logic and value steps): the step's logic evaluates the whole chain once more before it returns (a validation
+	// helper that re-validates, a second goroutine doing the same thing at that moment): each evaluation is one of its own.
+	Reenter bool `json:"reenter,omitempty"`
 }
 
 type C20Case struct {
@@ -84,6 +87,31 @@ type c20Event struct {
 
 type c20Trace struct {
 	ev []c20Event
+	// re-entrant evaluations: depth guards against unbounded recursion, inner collects verdict and trace of each inner evaluation
+	depth   int
+	noEnter bool
+	chain   *checker.Checker
+	inner   []c20Inner
+}
+
+type c20Inner struct {
+	failed bool
+	trace  string
+}
+
+// reenter runs the chain once more from inside one of its steps and files the inner evaluation's trace separately.
+func (tr *c20Trace) reenter() {
+	if tr.noEnter || tr.depth > 0 || tr.chain == nil {
+		return
+	}
+	tr.depth++
+	saved := tr.ev
+	tr.ev = nil
+	failed := c20Eval(tr.chain)
+	in := c20Inner{failed: failed, trace: tr.String()}
+	tr.ev = saved
+	tr.depth--
+	tr.inner = append(tr.inner, in)
 }
 
 func (tr *c20Trace) add(i int, w byte) { tr.ev = append(tr.ev, c20Event{i, w}) }
@@ -129,6 +157,9 @@ func c20Build(steps []C20Step, tr *c20Trace) *checker.Checker {
 		cond := func() bool { tr.add(i, 'c'); return s.Cond }
 		logic := func() error {
 			tr.add(i, 'l')
+			if s.Reenter {
+				tr.reenter()
+			}
 			if s.LogicErr {
 				return errC20
 			}
@@ -150,9 +181,15 @@ func c20Build(steps []C20Step, tr *c20Trace) *checker.Checker {
 		case kLogic:
 			c.WithLogicStep(logic, errF)
 		case kValueStep:
-			c.WithValueStep(func() { tr.add(i, 'l') })
+			c.WithValueStep(func() {
+				tr.add(i, 'l')
+				if s.Reenter {
+					tr.reenter()
+				}
+			})
 		}
 	}
+	tr.chain = c
 	return c
 }
 
@@ -174,8 +211,18 @@ func c20Check(steps []C20Step) *ev.Violation {
 		}
 	}
 	var firstTrace string
-	for round := 0; round < 2; round++ {
+	reentrant := false
+	for _, s := range steps {
+		reentrant = reentrant || s.Reenter
+	}
+	rounds := 2
+	if reentrant {
+		rounds = 3 // the third evaluation lets the marked steps re-enter the chain
+	}
+	for round := 0; round < rounds; round++ {
 		tr.ev = tr.ev[:0]
+		tr.inner = nil
+		tr.noEnter = round < 2
 		got := c20Eval(c)
 		if got != (first >= 0) {
 			return ev.V("C20/verdict", "round %d: CheckFailed=%v, reference says first failing step=%d; trace %s", round, got, first, tr)
@@ -239,13 +286,18 @@ func c20Check(steps []C20Step) *ev.Violation {
 		if round == 0 {
 			firstTrace = tr.String()
 		} else if tr.String() != firstTrace {
-			return ev.V("C20/not-repeatable", "second evaluation differs: %q vs %q", firstTrace, tr.String())
+			return ev.V("C20/not-repeatable", "evaluation %d differs: %q vs %q", round+1, firstTrace, tr.String())
+		}
+		for k, in := range tr.inner {
+			if in.failed != (first >= 0) || in.trace != firstTrace {
+				return ev.V("C20/overlapping-evaluations-interfere", "evaluation started from inside a step (%d): verdict %v trace %q, an evaluation of its own gives %v %q", k, in.failed, in.trace, first >= 0, firstTrace)
+			}
 		}
 	}
 	return nil
 }
 
-// the 17 canonical step variants used by the exhaustive enumeration
+// the canonical step variants used by the exhaustive enumeration
 var c20Variants = []C20Step{
 	{Kind: kNotEmpty, Value: "x"},
 	{Kind: kNotEmpty, Value: ""},
@@ -257,6 +309,7 @@ var c20Variants = []C20Step{
 	{Kind: kEquals, Value: "a", Equal: "b"},
 	{Kind: kEquals, Value: "a/", Equal: "a"},
 	{Kind: kNotEmpty, Value: "", PanicCB: true},
+	{Kind: kValueStep, Reenter: true},
 	{Kind: kCondNotEmpty, Cond: true, Value: "x"},
 	{Kind: kCondNotEmpty, Cond: true, Value: ""},
 	{Kind: kCondNotEmpty, Cond: false, Value: ""},
@@ -361,12 +414,13 @@ func TestC20Enum(t *testing.T) {
 	})
 }
 
-const c20Rule = "chains over the checker API: (a) every sequence of the 19 step variants (8 kinds x outcomes pass/fail/condition-false, plus an inequality by one trailing slash and a failing step whose callback panics) up to the stated length, enumerated exhaustively, each evaluated twice; (b) rapid-generated chains up to length 40 with random strings (incl. pairs that differ only by a trailing slash or blank, by letter case, by a prefix), bounds (0 = no bound, min>max allowed), value lists and failure callbacks that panic. Non-trivial: length >= 2 with a failing step that is not the last. Enumerated chains are distinct by construction; generated chains are distinct by (kind, reference outcome) vector."
+const c20Rule = "chains over the checker API: (a) every sequence of the 20 step variants (8 kinds x outcomes pass/fail/condition-false, plus an inequality by one trailing slash, a failing step whose callback panics, and a step that evaluates the whole chain again from inside itself) up to the stated length, enumerated exhaustively, each evaluated twice (three times when a step re-enters: inner and outer evaluations must each look like an evaluation of their own); (b) rapid-generated chains up to length 40 with random strings (incl. pairs that differ only by a trailing slash or blank, by letter case, by a prefix), bounds (0 = no bound, min>max allowed), value lists and failure callbacks that panic. Non-trivial: length >= 2 with a failing step that is not the last. Enumerated chains are distinct by construction; generated chains are distinct by (kind, reference outcome) vector."
 
 func genC20Step(t *rapid.T) C20Step {
 	s := C20Step{Kind: rapid.IntRange(0, 7).Draw(t, "kind")}
 	str := rapid.OneOf(rapid.Just(""), rapid.StringMatching(`[a-z ]{0,12}`), rapid.StringMatching(`[a-zA-Z/:. ]{1,12}`), rapid.SampledFrom([]string{"/", "https://idp.example/saml/SSO", "https://idp.example/saml/SSO/", " ", "a//", "\x00", "é"}))
 	s.PanicCB = rapid.IntRange(0, 5).Draw(t, "panic-in-callback") == 0
+	s.Reenter = (s.Kind == kLogic || s.Kind == kValueStep || s.Kind == kCondLogic) && rapid.IntRange(0, 3).Draw(t, "reenter") == 0
 	switch s.Kind {
 	case kNotEmpty:
 		s.Value = str.Draw(t, "value")
